@@ -169,14 +169,15 @@ Proof. rewrite sql_canon_eq. reflexivity. Qed.
 
 Lemma nonwrite_same o db : writes o = false -> fst (sql_step D db o) = db.
 Proof.
-  intros H. rewrite sql_canon_eq. destruct o; try discriminate; cbn;
-    try (destruct (lookup k db) as [[c0 v0]|]); reflexivity.
+  intros H. rewrite sql_canon_eq. destruct o; try discriminate; cbn -[sql_window];
+    try (destruct (lookup k db) as [[c0 v0]|]); try (destruct (sql_window _ _ _)); reflexivity.
 Qed.
 
 Lemma stmt_not_busy o db : is_mutate o = false -> is_busy (snd (sql_step D db o)) = false.
 Proof.
-  intros H. rewrite sql_canon_eq. destruct o; try discriminate; cbn;
+  intros H. rewrite sql_canon_eq. destruct o; try discriminate; cbn -[sql_window];
     try (destruct (lookup k db) as [[c0 v0]|]); try reflexivity;
+    try (destruct (sql_window _ _ _); [|reflexivity]);
     unfold walk_result; destruct (visit _ _); reflexivity.
 Qed.
 
